@@ -15,8 +15,10 @@ import (
 
 	appsv1 "k8s.io/api/apps/v1"
 	corev1 "k8s.io/api/core/v1"
+	apierrors "k8s.io/apimachinery/pkg/api/errors"
 	metav1 "k8s.io/apimachinery/pkg/apis/meta/v1"
 	"k8s.io/apimachinery/pkg/runtime"
+	"k8s.io/apimachinery/pkg/runtime/schema"
 	"k8s.io/client-go/kubernetes/fake"
 	k8stesting "k8s.io/client-go/testing"
 	kshard "tkestack.io/kvass/pkg/shard/kubernetes"
@@ -175,6 +177,14 @@ func runK8sCase(c *k8Case) k8Obs {
 		}
 		if c.UpdFail {
 			cli.PrependReactor("update", "statefulsets", func(a k8stesting.Action) (bool, runtime.Object, error) {
+				// the kinds of rejection an API server answers with: optimistic-lock conflict, server-side failure, anything else
+				gr := schema.GroupResource{Group: "apps", Resource: "statefulsets"}
+				switch (int(c.N) + int(c.Replicas) + c.Ntpl) % 3 {
+				case 0:
+					return true, nil, apierrors.NewConflict(gr, "web", fmt.Errorf("the object has been modified; please apply your changes to the latest version and try again"))
+				case 1:
+					return true, nil, apierrors.NewInternalError(fmt.Errorf("etcdserver: request timed out"))
+				}
 				return true, nil, fmt.Errorf("Operation cannot be fulfilled on statefulsets.apps \"web\": the object has been modified")
 			})
 		}
